@@ -20,7 +20,7 @@ RULE = ('random axially symmetric lenses (spheres, conics, even aspheres, planes
 TIERS = {'quick': dict(shards=6, cases=45), 'thorough': dict(shards=16, cases=1200)}
 MIN_NONTRIVIAL = {'quick': 60, 'thorough': 1000}
 MIN_EVALS = {'marginal-convergence': 100, 'chief-convergence': 100, 'axial-focus-to-BFL': 60,
-             'zero-pupil-ray-to-stop-centre': 60, 'image-height-per-unit-field': 60}
+             'zero-pupil-ray-to-stop-centre': 60, 'image-height-per-unit-field': 60, 'paraxial-trace-other-wavelength': 20}
 ASSUMPTIONS = ['the paraxial side is the library\'s own marginal_ray()/chief_ray() (the statement relates the two tracers); '
                'C04 checks those against ABCD', 'field scale of an angular field is tan(eps*theta)/tan(theta)',
                'float floor of a normalised discrepancy at scale eps is taken as 1e-11 * system scale / eps']
@@ -38,7 +38,7 @@ def fixed_cases(tier):
 
 
 def gen_case(rng, tier, i):
-    kw = dict(asphere_p=0.2, glass_p=0.2, immersed_p=0.1, neg_power_p=0.25, image='any', conic_p=0.4,
+    kw = dict(asphere_p=0.2, glass_p=0.3, nwl=(1, 3), obj_medium_p=0.2, immersed_p=0.1, neg_power_p=0.25, image='any', conic_p=0.4,
               stop=str(rng.choice(['first', 'interior', 'last', 'any'])), max_field_deg=10.0)
     if rng.random() < 0.2:
         kw['mirrors_p'] = 0.3
@@ -55,8 +55,10 @@ def decay_ok(e, floors):
     for i in range(len(e) - 1):
         if not np.isfinite(e[i + 1]) or not np.isfinite(e[i]):
             return False, clean
-        if e[i + 1] <= 0.05 * e[i]:
-            if e[i + 1] > floors[i + 1]:
+        # the statement is asymptotic: at eps = 0.1 higher orders may still balance the quadratic term, so the first
+        # decade only has to shrink; from 1e-2 downwards every decade must shrink the error >= 20x
+        if e[i + 1] <= (0.5 if i == 0 else 0.05) * e[i]:
+            if e[i + 1] > floors[i + 1] and e[i + 1] <= 0.05 * e[i]:
                 clean += 1
             continue
         if e[i + 1] <= floors[i + 1]:
@@ -184,7 +186,8 @@ def check_case(case, rec):
                 zp = -ya[K - 1] / ua[K - 1]
             if zf is not None and np.isfinite(zp) and abs(zp) < 1e6:
                 ef = np.abs(zf - zp) / max(1.0, abs(zp))
-                okf, _ = decay_ok(ef, [1e-11 * max(1.0, abs(zp)) / eps ** 2 / max(1e-30, abs(ya[K - 1])) * 1e0 for eps in EPS])
+                # (the focus position is a ratio y/u: it is judged from eps = 1e-2 downwards)
+                okf, _ = decay_ok(ef[1:], [1e-11 * max(1.0, abs(zp)) / eps ** 2 / max(1e-30, abs(ya[K - 1])) * 1e0 for eps in EPS[1:]])
                 rec.check('axial-focus-to-BFL', okf, resid=float(ef[-1]), tol=1e-6,
                           msg=f'real axial focus does not tend to the paraxial back focal position: {["%.2e" % v for v in ef]}')
         else:
@@ -198,4 +201,32 @@ def check_case(case, rec):
             rec.check('image-height-per-unit-field', oki and ei[-1] <= max(ei[0] * 1e-4, floors[-1] / scale),
                       resid=float(ei[-1]), tol=1e-6,
                       msg=f'real image height per unit field does not tend to the paraxial image height: {["%.2e" % v for v in ei]}')
+    # the same limit at a NON-primary wavelength (dispersive lenses): paraxial side = Paraxial.trace(Hy, Py, wavelength)
+    others = [w_[0] for w_ in spec['wavelengths'] if w_[0] != wl]
+    dispersive = any(isinstance(s_.get('medium'), dict) and ('glass' in s_['medium'] or 'abbe' in s_['medium'])
+                     for s_ in spec['surfaces'])
+    if others and dispersive:
+        w2 = others[0]
+        for kind, (Hy_, Py_) in (('marginal', (0.0, 1.0)), ('chief', (1.0, 0.0))):
+            if kind == 'chief' and (tele or fmax == 0):
+                continue
+            lens.paraxial.trace(Hy_, Py_, w2)
+            ty, tu = np.ravel(sg.y).astype(float).copy(), np.ravel(sg.u).astype(float).copy()
+            es = []
+            for eps in (1e-2, 1e-4):
+                if kind == 'marginal':
+                    lens.trace_generic(0.0, 0.0, 0.0, float(eps), w2)
+                    s_ = eps
+                else:
+                    lens.trace_generic(0.0, float(eps), 0.0, 0.0, w2)
+                    s_ = (math.tan(math.radians(eps * fmax)) / math.tan(math.radians(fmax))) if angle else eps
+                with np.errstate(all='ignore'):
+                    es.append(max(float(np.max(np.abs(sg.y[1:, 0] / s_ - ty[1:]))) / scale,
+                                  float(np.max(np.abs((sg.M[1:, 0] / sg.N[1:, 0]) / s_ - tu[1:])))))
+            if not np.isfinite(es[0]):
+                continue
+            tol2 = max(es[0] * 1e-3, floors[-1] / scale)
+            rec.check('paraxial-trace-other-wavelength', bool(np.isfinite(es[1]) and es[1] <= tol2), resid=es[1], tol=tol2,
+                      key=f'paraxial-trace-other-wavelength:{kind}',
+                      msg=f'at wavelength {w2} the {kind}-type real rays do not converge to Paraxial.trace: {es[0]:.2e} -> {es[1]:.2e}')
     rec.sample(dict(spec=spec, paraxial=dict(ya=ya, yb=yb)))
